@@ -54,11 +54,11 @@ def coq_stage(prop, tier):
     rc0, out0 = sh("python3 tools/py2coq.py --no-sd 2>&1", 120, VERIF)
     rc0s, out0s = sh("python3 tools/py2coq_sd.py 2>&1", 120, VERIF)
     rc0c, out0c = sh("python3 tools/py2coq_core.py 2>&1", 120, VERIF)
-    uses_helpers = any(u in ("PySrc", "PySrcKey", "PySrcPlace") for u in uses)
-    uses_sd = any(u in ("PySrcSd", "PySrcSdTarget") for u in uses)
-    translator_ok = (rc0 == 0 or not uses_helpers) and (rc0s == 0 or not uses_sd) and (rc0c == 0 or "PySrcCore" not in uses)
+    # a translator refuses per generated file ("FAILED <file>"): that counts for the properties importing the module
+    failed_mods = set(re.findall(r"FAILED (\w+)\.v", out0 + out0s + out0c))
+    translator_ok = not (failed_mods & set(uses))
     out0s += out0c
-    info["translators"] = {"py2coq": rc0, "py2coq_sd": rc0s, "py2coq_core": rc0c, "modules_imported_by_this_property": uses}
+    info["translators"] = {"py2coq": rc0, "py2coq_sd": rc0s, "py2coq_core": rc0c, "refused_files": sorted(failed_mods), "modules_imported_by_this_property": uses}
     if tier == "thorough":
         sh("make -C coq clean >/dev/null 2>&1; rm -f coq/props/*.vo coq/theories/*.vo", 120, VERIF)
     # whole project with -k (keeps everything that can be built fresh), then this property's file and the extraction
